@@ -320,3 +320,25 @@ Theorem C04_selection_current : forall line section_name,
   = pats_re (py_configure_metadata_patterns line section_name).
 Proof. exact configure_patterns_pin. Qed.
 Print Assumptions C04_selection_current.
+
+(* ---- the treatment of the matched groups is the Python's ------------------------------------------
+   What read_header_line does with the groups of the matching pattern (strip each, drop the periods of
+   a unit that ends with one; a group the pattern lacks stays "") equals the loop over m.groupdict()
+   re-translated on every run from reader.read_header_line (py_header_line_fields); groupdict g0..g3 is
+   the dict of the groups present, hline_dict the dict the function returns. *)
+Require Import FuncsPinHeaderLine.
+Theorem C04_fields_current : forall g0 g1 g2 g3,
+  py_header_line_fields (groupdict g0 g1 g2 g3)
+  = Some (hline_dict (mkhl (strip (gv g0)) (fix_unit (gv g1)) (strip (gv g2)) (strip (gv g3)))).
+Proof. exact header_fields_pin. Qed.
+Theorem C04_fields_composition_current : forall line is_curves is_param,
+  read_header_line line is_curves is_param =
+  match first_match (configure_patterns line is_curves is_param) line with
+  | None => None
+  | Some y =>
+      Some (mkhl (strip (gv (group_opt 0%nat (caps y)))) (fix_unit (gv (group_opt 1%nat (caps y))))
+                 (strip (gv (group_opt 2%nat (caps y)))) (strip (gv (group_opt 3%nat (caps y)))))
+  end.
+Proof. exact read_header_line_fields. Qed.
+Print Assumptions C04_fields_current.
+Print Assumptions C04_fields_composition_current.
